@@ -74,6 +74,12 @@ BROAD_MODES = {
                                                 "growing.full_rank.svd_max_jac_cond": 1e4, "growing.full_rank.scale_factor": 1e-1})}, {"random"}),
     "grow_bounds": (dict(_BOX2, up=dict(_G), x0=[0.9, 1.7]), {"random"}),
     "grow_n3": ({"up": {"growing.ndirs_initial": 2}, "prob": "nzr3"}, {"random", "n3"}),
+    # the geometry fix inside a growing-phase safety step is only reachable when new directions are long (> 10 rho)
+    "grow_full_geom_far_dirns": ({"up": {"growing.ndirs_initial": 1, "growing.safety.full_geom_step": True, "general.safety_step_thresh": 5.0,
+                                         "growing.delta_scale_new_dirns": 20.0}, "prob": "nzr3"}, {"random", "n3"}),
+    "grow_full_geom_far_dirns_bounds": ({"up": {"growing.ndirs_initial": 1, "growing.safety.full_geom_step": True,
+                                                "general.safety_step_thresh": 5.0, "growing.delta_scale_new_dirns": 20.0},
+                                         "prob": "rosen3", "lo": [-1.5, -0.5, -1.0], "hi": [0.9, 1.7, 0.8]}, {"random", "n3"}),
     "grow_inverse": ({"up": {"growing.ndirs_initial": 1}, "prob": "inv"}, {"random", "n3"}),
     # regression
     "reg_npt5_extra1": ({"npt": 5, "up": {"regression.num_extra_steps": 1}}, set()),
@@ -205,7 +211,7 @@ _XTREME = [
     ("grow", {"up": dict(_G)}, {"random"}, "growing.full_rank.svd_scale_factor", [0.0, 1.0]),
     ("grow", {"up": dict(_G)}, {"random"}, "growing.full_rank.min_sing_val", [0.0, 1.0]),
     ("grow", {"up": dict(_G)}, {"random"}, "growing.full_rank.svd_max_jac_cond", [1.0, 1e16]),
-    ("sets", {"sets": _SETS2}, {"sets"}, "dykstra.d_tol", [0.0, 1e-2]),
+    ("sets", {"sets": _SETS2}, {"sets"}, "dykstra.d_tol", [1e-12, 1e-2]),
     ("sets", {"sets": _SETS2}, {"sets"}, "dykstra.max_iters", [1, 2]),
     ("sets", {"sets": _SETS2}, {"sets"}, "matrix_rank.r_tol", [0.0, 1e-6]),
     ("l1", {"reg": {"r": "l1", "lam": 0.05}, "up": dict(_F)}, {"regfast"}, "func_tol.criticality_measure", [1e-8, 1.0]),
